@@ -322,6 +322,7 @@ def acl_case_st(draw, tier):
                         opaque=True))
     acl["port_nr"] = draw(st.booleans())
     acl["protocol_nr"] = draw(st.booleans())
+    acl["version"] = draw(st.sampled_from(["0", "0", "15.2(02)SY", "16.09.06", "12.4", "9.3(8)"]))
     acl["name"] = draw(st.sampled_from(["T", "ACL-1", "acl_x.y", "110", "a(b)c", "X&Y", "n:1/2"]))
     if draw(st.sampled_from(range(10))) == 0:
         acl["indent"] = ""
